@@ -3,6 +3,7 @@ package sym
 import (
 	"fmt"
 	"go/types"
+	"regexp"
 	"strings"
 )
 
@@ -235,7 +236,7 @@ func (x *Exec) assertCond(id string, c *Term, forcedRegion string) {
 	}
 	if forcedRegion != "" {
 		// panic sites: the region is the site itself
-		r, m := x.checkM(neg)
+		r, m, _ := x.checkModel(neg)
 		if r == Sat {
 			v := &Violation{ID: id, Model: m, Decision: append([]int8{}, x.decisions[:x.pos]...), Site: forcedRegion}
 			if x.E.Known[forcedRegion] {
@@ -248,7 +249,7 @@ func (x *Exec) assertCond(id string, c *Term, forcedRegion string) {
 		return
 	}
 	outside := append([]*Term{neg}, mapNot(knownConds)...)
-	r, m := x.checkM(outside...)
+	r, m, _ := x.checkModel(outside...)
 	switch r {
 	case Sat:
 		x.violations = append(x.violations, &Violation{ID: id, Model: m, Decision: append([]int8{}, x.decisions[:x.pos]...)})
@@ -256,7 +257,7 @@ func (x *Exec) assertCond(id string, c *Term, forcedRegion string) {
 		x.inconclusive = append(x.inconclusive, "assertion "+id+": solver unknown")
 	}
 	for k, kc := range knownConds {
-		r2, m2 := x.checkM(neg, kc)
+		r2, m2, _ := x.checkModel(neg, kc)
 		if r2 == Sat {
 			x.violations = append(x.violations, &Violation{ID: id, Region: knownIDs[k], Model: m2, Decision: append([]int8{}, x.decisions[:x.pos]...)})
 		}
@@ -283,6 +284,17 @@ var regexClasses = map[string]string{
 	"int":   `(re.++ (re.opt (re.union (str.to_re "+") (str.to_re "-"))) (re.+ (re.range "0" "9")))`,
 	"ncname_id": `(re.++ (str.to_re "_") ((_ re.loop 8 8) (re.union (re.range "0" "9") (re.range "a" "f"))) (str.to_re "-") ((_ re.loop 4 4) (re.union (re.range "0" "9") (re.range "a" "f"))) (str.to_re "-") ((_ re.loop 4 4) (re.union (re.range "0" "9") (re.range "a" "f"))) (str.to_re "-") ((_ re.loop 4 4) (re.union (re.range "0" "9") (re.range "a" "f"))) (str.to_re "-") ((_ re.loop 12 12) (re.union (re.range "0" "9") (re.range "a" "f"))))`,
 	"nobrace":   `(re.* (re.diff re.allchar (re.union (str.to_re "{") (str.to_re "}"))))`,
+	"hostchars": `(re.* (re.union (re.range "a" "z") (re.range "0" "9") (str.to_re ".") (str.to_re "-")))`,
+	"hosttoken": `(re.+ (re.union (re.range "a" "z") (re.range "0" "9") (str.to_re ".") (str.to_re "-")))`,
+	"pathchars": `(re.union (str.to_re "") (re.++ (re.opt (str.to_re "/")) (re.+ (re.union (re.range "a" "z") (re.range "0" "9"))) (re.* (re.++ (str.to_re "/") (re.+ (re.union (re.range "a" "z") (re.range "0" "9"))))) (re.opt (str.to_re "/"))))`,
+	"querychars": `(re.* (re.union (re.range "a" "z") (re.range "0" "9") (str.to_re "=")))`,
+}
+
+var concreteClassRe = map[string]*regexp.Regexp{
+	"hostchars":  regexp.MustCompile(`^[a-z0-9.-]*$`),
+	"hosttoken":  regexp.MustCompile(`^[a-z0-9.-]+$`),
+	"pathchars":  regexp.MustCompile(`^(/?[a-z0-9]+(/[a-z0-9]+)*/?)?$`),
+	"querychars": regexp.MustCompile(`^[a-z0-9=]*$`),
 }
 
 func matchClassConcrete(class, s string) bool {
@@ -313,6 +325,8 @@ func matchClassConcrete(class, s string) bool {
 		return true
 	case "nobrace":
 		return !strings.ContainsAny(s, "{}")
+	case "hostchars", "hosttoken", "pathchars", "querychars":
+		return concreteClassRe[class].MatchString(s)
 	case "ncname_id":
 		if len(s) != 37 || s[0] != '_' {
 			return false
